@@ -7,6 +7,30 @@ COMMON_NOTE = ("Trusted: Coq 8.16.1 kernel (vm_compute, no native_compute); no a
                "extraction via ExtrOcamlBasic only + coq/Extract/driver.ml, cross-checked by vm_compute on a sample every run; "
                "harness/translate.py (T1) and the per-property runner harness/cNN.py (T2 canonicalisation). ")
 CLAIMED = {
+ "C02": dict(
+   text="Coq theorems over ALL digit strings (<=28 digits), ALL valid sign nibbles, ALL pictures and ALL values of the width: packed, zoned and big-endian binary encodings decode to exactly the stored value with the picture's scale; every byte string decodes to its CP037 text, injectively (256-entry table regenerated from the codec). "
+        "The model's constants (usage tuples, sign nibbles, thresholds, digit validation, DOTALL) are regenerated from estruct.py each run; correspondence is exhaustive for 1-2 byte packed/zoned buffers, all halfwords, all text bytes, sampled beyond, also through the schema/nav path.",
+   note="Modelled by hand: estruct.unpack for pictures S?9(m)V9(n) and X(k), Decimal multiplication under the default context, struct.unpack big-endian. Picture text -> (signed,m,n) is C13's concern. Known finding K-packed-prec (29-31 digit packed values rounded to 28 digits).",
+   technique="Coq proof by induction on digit lists / byte width + regenerated parameters + exhaustive-small and sampled differential correspondence",
+   design="5/C02"),
+ "C04": dict(
+   text="Coq theorem by complete enumeration of the finite space the property names (13 USAGE spellings x signed x (m,n), 4914 configurations, the list appears in the statement and is proved complete): size function = listed width, decoder accepts it, Struct and Text readers agree - outside three exactly characterised known-bad families, each proved to fail. "
+        "Correspondence runs the real code on all 4914 configurations x 8 reports (calcsize, decoder, maxLength, minLength, Location size, record end, Struct, Text) every run.",
+   note="Finite domain, so forallb by vm_compute lifted with forallb_forall is a proof. Known findings: K-signed-binary-size (pinned by the project's tests), K-float-no-decoder, K-struct-packed; a known verdict requires exactly the pinned wrong behaviour.",
+   technique="Coq proof by complete finite enumeration (vm_compute + forallb_forall) + regenerated parameters + exhaustive differential correspondence",
+   design="5/C04"),
+ "C18": dict(
+   text="Coq theorems over ALL byte strings of the field's width, all pictures up to 27/28 digits: packed and zoned decoding yields an error or a decimal with exactly the declared scale and fewer than 10^(m+n) in magnitude, outside the two residual families (pad nibble of even-digit packed items, sign-position byte of signed DISPLAY items) which are proved to violate the full statement. "
+        "Correspondence: all 256 one-byte and all 65536 two-byte buffers per picture family, random/nibble-boundary patterns to 28 digits.",
+   note="Same model as C02. Known findings K-pad-nibble and K-sign-position; a known verdict requires the pinned behaviour (right scale, exactly one digit too many).",
+   technique="Coq proof by induction on the buffer (digit count bounds the value) + regenerated parameters + exhaustive-to-width-2 differential correspondence",
+   design="5/C18"),
+ "C09": dict(
+   text="Coq theorems over ALL sheets (any row lengths), ALL column permutations, ALL ragged rows: rows delivered = physical rows after the header, once, in order; by-name access returns the cell under the header or the absent marker; permuting columns changes no by-name value; values() is the cells in header order padded with absent; external (name, description, type) schemas give positions 0..n-1 and read like the hand-written schema. "
+        "Correspondence on generated tables as CSV and XLSX incl. permutation pairs and external-schema sheets.",
+   note="Modelled by hand: Sheet.row_iter two-phase iteration, HeadingRowSchemaLoader, WBNav.name/value, Row.values, ExternalSchemaLoader under the documented META_SCHEMA protocol; name_cleaner is the C17 model. csv/openpyxl parsers are outside the model (the judge derives the physical sheet from the written table). Domain: distinct header names, text headers.",
+   technique="Coq proof by induction over rows/columns (Permutation, NoDup) + sampled differential correspondence over two file formats",
+   design="5/C09"),
  "C17": dict(
    text="Machine-checked proof (Coq) over all strings that the model of name_cleaner terminates within its fuel, never raises, returns '' or a legal anchor, fixes legal names and is idempotent; "
         "the model's character classes and regex flags are regenerated from the source on every run and the model is run against the implementation exhaustively (12-symbol alphabet, length<=4/5) plus random Unicode.",
